@@ -198,17 +198,17 @@ package transport
 //@ }
 
 //@ func encodeGrpcMessageUnchecked
-//@   prop C08
+//@   prop C08 C10
 //@   pure
 
 //@ func decodeGrpcMessageUnchecked
-//@   prop C08
+//@   prop C08 C10
 //@   pure
 //@   nopanic
 //@   loop 1 invariant 0 <= i && i <= lenMsg && lenMsg == len(msg)
 
 //@ func encodeGrpcMessage
-//@   prop C08
+//@   prop C08 C10
 //@   nopanic
 //@   loop 1 invariant 0 <= i && i <= lenMsg && lenMsg == len(msg) && len(msg) > 0
 //@   loop 1 invariant forall(func(j int) bool { return implies(0 <= j && j < i, msg[j] >= 0x20 && msg[j] <= 0x7E && msg[j] != '%') })
@@ -217,7 +217,7 @@ package transport
 //@   ensures implies(!allPlain(msg), result == encodeGrpcMessageUnchecked(msg))
 
 //@ func decodeGrpcMessage
-//@   prop C08
+//@   prop C08 C10
 //@   nopanic
 //@   loop 1 invariant 0 <= i && i <= lenMsg && lenMsg == len(msg) && len(msg) > 0
 //@   loop 1 invariant forall(func(j int) bool { return implies(0 <= j && j < i, !(msg[j] == '%' && j+2 < len(msg))) })
@@ -227,7 +227,7 @@ package transport
 
 // A message of plain bytes is sent verbatim and decodes to itself.
 //@ lemma plainMessageRoundTrip(m string)
-//@   prop C08
+//@   prop C08 C10
 //@   requires allPlain(m)
 //@   body e := encodeGrpcMessage(m)
 //@        d := decodeGrpcMessage(e)
